@@ -1504,7 +1504,10 @@ LEVEL_TEXT = ('Lean 4 theorems over a code-shaped model of insert_operator, _bui
               '(default, legacy, with/without delegates) and by differential runs of the compiled model against the '
               'real engine (exhaustive <=3 binary x <=2 prefix operators on both standard tables in the thorough tier, '
               'random forms, custom tables, dictated trees, token soups).')
-LEVEL_NOTE = ("trusted: Lean kernel; ply's LALR(1) construction and conflict resolution (the model is a precedence "
+LEVEL_NOTE = ("round 5: EngineHist model of one factory over time (insert / create / copy) with C02Hist.snapshot_kept and "
+              "later_inserts_irrelevant (an engine and all its copies, whenever made, parse by the table of create() time, for every later "
+              "history); tied by replaying the same host operations on real factories and comparing every descendant with a fresh engine "
+              "of creation time. trusted: Lean kernel; ply's LALR(1) construction and conflict resolution (the model is a precedence "
               'machine, equivalence is differential); the real ply lexer tokenises in the correspondence; hand-written '
               'models Yaql/Model/OpTable.lean and Parser.lean. ply_order_iso assumes lexeme names are distinct across '
               'rows (kernel-checked for the live tables, not proved for the name generator in general). Known finding: '
